@@ -13,9 +13,12 @@ import (
 	"errors"
 	"fmt"
 	"sort"
+	"strings"
 	"sync"
+	"sync/atomic"
 
 	"github.com/iotaledger/hive.go/kvstore"
+	"github.com/iotaledger/hive.go/kvstore/debug"
 	"github.com/iotaledger/hive.go/kvstore/flushkv"
 	"github.com/iotaledger/hive.go/kvstore/mapdb"
 )
@@ -168,9 +171,9 @@ func (b *bufStore) Iterate(kvstore.KeyPrefix, kvstore.IteratorKeyValueConsumerFu
 func (b *bufStore) IterateKeys(kvstore.KeyPrefix, kvstore.IteratorKeyConsumerFunc, ...kvstore.IterDirection) error {
 	return errUnsupported
 }
-func (b *bufStore) Clear() error                                { return errUnsupported }
-func (b *bufStore) DeletePrefix(kvstore.KeyPrefix) error        { return errUnsupported }
-func (b *bufStore) Close() error                                { return nil }
+func (b *bufStore) Clear() error                               { return errUnsupported }
+func (b *bufStore) DeletePrefix(kvstore.KeyPrefix) error       { return errUnsupported }
+func (b *bufStore) Close() error                               { return nil }
 func (b *bufStore) Batched() (kvstore.BatchedMutations, error) { return nil, errUnsupported }
 
 // ---------------------------------------------------------------- configurations
@@ -184,12 +187,50 @@ type cfg struct {
 	Store string  `json:"store"` // root | realm | flush | flushrealm
 	Drop  bool    `json:"failed_flush_drops_buffer,omitempty"`
 	Chain []level `json:"chain,omitempty"`
+	// Debug != "": a kvstore/debug tracing wrapper is part of the stack. nil = nil callback; otherwise a counting
+	// callback with the commands filter all | none | get | set | notset (everything but Set).
+	Debug string `json:"debug_wrapper,omitempty"`
+	// DebugAt: top = debug.New(top store) (realm views are then opened through the wrapper); view = debug.New(final view);
+	// under = flushkv.New(debug.New(backend)) (buffering stores only, otherwise as top)
+	DebugAt string `json:"debug_at,omitempty"`
 }
 
 func (c cfg) flush() bool { return c.Store == "flush" || c.Store == "flushrealm" }
 
+// family: the configuration family a run is counted under.
+func (c cfg) family() string {
+	if c.Debug != "" {
+		return "debug"
+	}
+	return c.Store
+}
+
+var debugCalls atomic.Int64
+
+func (c cfg) wrapDebug(s kvstore.KVStore) kvstore.KVStore {
+	cb := func(debug.Command, ...[]byte) { debugCalls.Add(1) }
+	switch c.Debug {
+	case "nil":
+		return debug.New(s, nil)
+	case "all":
+		return debug.New(s, cb)
+	case "none":
+		return debug.New(s, cb, debug.ShutdownCommand) // the empty filter
+	case "get":
+		return debug.New(s, cb, debug.GetCommand)
+	case "set":
+		return debug.New(s, cb, debug.SetCommand)
+	case "notset":
+		return debug.New(s, cb, debug.AllCommands&^debug.SetCommand)
+	}
+	return s
+}
+
 func (c cfg) String() string {
 	s := c.Store
+	if c.Debug != "" {
+		s = "debug(" + c.Debug + "@" + c.DebugAt + ")+" + s
+	}
 	if c.flush() {
 		if c.Drop {
 			s += "/drop"
@@ -214,13 +255,14 @@ func spare(s string) []byte {
 }
 
 type decoy struct {
-	Key    string `json:"key"`
-	Prefix string `json:"realm"`
-	store  kvstore.KVStore
-	seq    *kvstore.Sequence
-	iv     uint64
-	base   uint64
-	nums   []uint64
+	Key     string `json:"key"`
+	Prefix  string `json:"realm"`
+	store   kvstore.KVStore
+	seq     *kvstore.Sequence
+	iv      uint64
+	base    uint64
+	nums    []uint64
+	retired bool // its realm was emptied by its owner
 }
 
 type env struct {
@@ -234,6 +276,13 @@ type env struct {
 	prefix       string
 	decoys       []*decoy
 	nsib         int
+	sibs         []sibRef
+	allowed      map[string]bool // further full keys the durable root may hold (data written by maintenance operations)
+}
+
+type sibRef struct {
+	store  kvstore.KVStore
+	prefix string
 }
 
 func must(s kvstore.KVStore, err error) kvstore.KVStore {
@@ -246,9 +295,17 @@ func must(s kvstore.KVStore, err error) kvstore.KVStore {
 func newEnv(c cfg) *env {
 	e := &env{cfg: c, root: mapdb.NewMapDB()}
 	e.top = e.root
+	e.allowed = map[string]bool{}
 	if c.flush() {
 		e.core = &bufCore{root: e.root, drop: c.Drop}
-		e.top = flushkv.New(&bufStore{c: e.core, under: e.root})
+		var back kvstore.KVStore = &bufStore{c: e.core, under: e.root}
+		if c.DebugAt == "under" {
+			back = c.wrapDebug(back)
+		}
+		e.top = flushkv.New(back)
+	}
+	if c.DebugAt == "top" || (c.DebugAt == "under" && !c.flush()) {
+		e.top = c.wrapDebug(e.top)
 	}
 	cur, prefix := e.top, ""
 	for _, l := range c.Chain {
@@ -259,6 +316,9 @@ func newEnv(c cfg) *env {
 			cur = must(cur.WithExtendedRealm(spare(l.Name)))
 		}
 		prefix += l.Name
+	}
+	if c.DebugAt == "view" {
+		cur = c.wrapDebug(cur)
 	}
 	e.view, e.prefix = cur, prefix
 	return e
@@ -300,6 +360,12 @@ func (e *env) armFlush() {
 // sibling opens a view next to the main one (same parent, realm name `name`; name may equal the main leaf: the same
 // realm opened a second time).
 func (e *env) sibling(name string, abs bool) (kvstore.KVStore, string) {
+	s, p := e.openSibling(name, abs)
+	e.sibs = append(e.sibs, sibRef{s, p})
+	return s, p
+}
+
+func (e *env) openSibling(name string, abs bool) (kvstore.KVStore, string) {
 	e.nsib++
 	if e.parent == nil {
 		return must(e.top.WithRealm(spare(name))), name
@@ -308,6 +374,65 @@ func (e *env) sibling(name string, abs bool) (kvstore.KVStore, string) {
 		return must(e.top.WithRealm(spare(e.parentPrefix + name))), e.parentPrefix + name
 	}
 	return must(e.parent.WithExtendedRealm(spare(name))), e.parentPrefix + name
+}
+
+var maintOps = []string{"delprefix-empty", "delprefix", "clear", "batch", "iterate", "fill"}
+
+// maintain: the owner of view s (realm prefix p) looks after its own data: fills in some keys, iterates, deletes by
+// (empty / non-empty) prefix, clears the realm, commits a batch with deletes. Refused when the realm contains the key of
+// the sequence under test; so on a store that keeps realms apart it cannot touch the mark. Other sequences living in
+// that realm lose their marks legitimately: they are retired (no further use, judged on what they returned so far).
+func (e *env) maintain(s kvstore.KVStore, p, op string) bool {
+	if p == "" || strings.HasPrefix(e.prefix+string(key), p) {
+		return false
+	}
+	set := func(k string) {
+		if s.Set([]byte(k), []byte{1, 2, 3}) == nil {
+			e.allowed[p+k] = true
+		}
+	}
+	retire := func(sub string) {
+		for _, d := range e.decoys {
+			if strings.HasPrefix(d.Prefix+d.Key, p+sub) {
+				d.retired = true
+			}
+		}
+	}
+	switch op {
+	case "fill":
+		set("data1")
+		set("data2")
+		set("x")
+	case "delprefix-empty":
+		set("data1")
+		retire("")
+		_ = s.DeletePrefix(kvstore.EmptyPrefix)
+	case "delprefix":
+		set("data1")
+		retire("s")
+		_ = s.DeletePrefix([]byte("s"))
+		_ = s.DeletePrefix([]byte("da"))
+	case "clear":
+		set("data2")
+		retire("")
+		_ = s.Clear()
+	case "batch":
+		set("data1")
+		if b, err := s.Batched(); err == nil {
+			retire("seq")
+			_ = b.Delete([]byte("data1"))
+			_ = b.Delete([]byte("seq"))
+			if b.Set([]byte("kept"), []byte{9}) == nil {
+				e.allowed[p+"kept"] = true
+			}
+			_ = b.Commit()
+		}
+	case "iterate":
+		_ = s.Iterate(kvstore.EmptyPrefix, func(kvstore.Key, kvstore.Value) bool { return true })
+		_ = s.IterateKeys([]byte("s"), func(kvstore.Key) bool { return true })
+	}
+	_ = s.Flush()
+	return true
 }
 
 // addDecoy registers another Sequence (key k on store s whose realm is prefix). Its mark starts in a number range of
@@ -331,6 +456,9 @@ func (e *env) addDecoy(s kvstore.KVStore, prefix, k string, iv uint64) *decoy {
 }
 
 func (d *decoy) next() {
+	if d.retired {
+		return
+	}
 	if d.seq == nil {
 		d.seq, _ = kvstore.NewSequence(d.store, []byte(d.Key), d.iv)
 	}
@@ -340,6 +468,9 @@ func (d *decoy) next() {
 }
 
 func (d *decoy) op(op string) {
+	if d.retired {
+		return
+	}
 	switch op {
 	case "next":
 		d.next()
@@ -373,6 +504,9 @@ func (e *env) strayKeys() []string {
 	want := map[string]bool{e.prefix + string(key): true}
 	for _, d := range e.decoys {
 		want[d.Prefix+d.Key] = true
+	}
+	for k := range e.allowed {
+		want[k] = true
 	}
 	var stray []string
 	_ = e.root.IterateKeys(kvstore.EmptyPrefix, func(k kvstore.Key) bool {
